@@ -122,10 +122,11 @@ Section Closures.
       incl asg asg' /\ incl cls cls'.
   Proof.
     induction cl as [|[p c] cl IH]; intros casted heap rel asg cls casted' heap' rel' W Hnd Hcl Hos Hrun.
-    - cbn in Hrun. inversion Hrun. subst. exists asg, cls. repeat split; auto.
-      + cbn [map]. rewrite app_nil_r. apply Permutation_refl.
-      + apply incl_refl.
-      + apply incl_refl.
+    - cbn in Hrun. inversion Hrun. subst. exists asg, cls.
+      split; [exact W|]. split; [intros; reflexivity|].
+      split; [cbn [map]; rewrite app_nil_r; apply Permutation_refl|].
+      split; [intros c Hc; left; exact Hc|]. split; [intros c Hc; left; exact Hc|].
+      split; apply incl_refl.
     - cbn [number_closures] in Hrun. cbn [map snd] in Hnd, Hcl. inversion Hnd as [|? ? Hc_notin Hnd']. subst.
       destruct (Hcl c (or_introl eq_refl)) as [Hclass [Hnasg Hncls]].
       assert (Hcl' : forall c0, In c0 (map snd cl) -> (In c0 open \/ ~ In c0 seen) /\ ~ In c0 asg /\ ~ In c0 cls)
